@@ -94,7 +94,7 @@ def c16 (op : String) (a : Array Json) : R (Option Json) := do
     | "dot_csr_csr" =>
       -- shape = [nRow, nCol] of the result, n = stored elements of the result, param: number of products
       let w ← jNat (← arg a 4)
-      pure (some (costJ (Cost.dotCsrCsr (shape.getD 0 0) (shape.getD 1 0) n w) (n + w + shape.getD 0 0 + shape.getD 1 0 + 2) 3))
+      pure (some (costJ (Cost.dotCsrCsr (shape.getD 0 0) (shape.getD 1 0) n w) (n + w + shape.getD 0 0 + shape.getD 1 0 + 2) 5))
     | _ => throw s!"unknown cost op {name}"
   | _ => pure none
 
